@@ -52,7 +52,7 @@ def grid(ctx):
                         if it.path[0] in (2, 3, 4, 5, 6, 7, 8, 10):
                             res.observe("grid_cells", f"{t.text()}@{it.offset % 8}:{probes.position_of(it.path)}")
             res.case(True, "grid", offset, chunk)
-            for config in (["gcc-O0-BE", "gcc-asan-BE"] if ctx.quick else ["gcc-O0-BE", "gcc-O2-BE", "clang-O2-BE", "gcc-asan-BE"]):
+            for config in (["gcc-O0-BE" if (offset + chunk) % 2 else "gcc-asan-BE"] if ctx.quick else ["gcc-O0-BE", "gcc-O2-BE", "clang-O2-BE", "gcc-asan-BE"]):
                 exe = sut_c.build(top, root, config)
                 sess = ccommon.CSession(exe, dg, config, "std")
                 ccommon.selftest_driver(res, sess, pairs[2][0], None, wit)
